@@ -242,8 +242,6 @@ theorem pin_names : Generated.C04.names = Const.names := by decide
 theorem pin_status_bits : Generated.C04.statusBits =
     [(Const.statusDataStored : Int), Const.statusValid, Const.statusValidateFailed,
      Const.statusInvalidAncestor, Const.statusHeaderStored] := by decide
-theorem pin_flush_modes : Generated.C04.flushModes = Const.flushModes := by decide
 theorem pin_versions : Generated.C04.utxoSetVersion = 2 ∧ Generated.C04.spendJournalVersion = 1 := by decide
-theorem pin_maturity : Generated.C04.coinbaseMaturityUsed = 1 := by decide
 
 end BV.C04
